@@ -289,3 +289,32 @@ B("B76", "C20-M2", [(SD, '''        for i in range(len(self)):
 B("B77", "C20-M5", [(SD, "        for node_id in list(self.expanded_ids()):\n            self.node_attractor_seeds(node_id, compute=True)",
                      "        for node_id in list(self.node_ids()):\n            self.node_attractor_seeds(node_id, compute=True)")],
   "build computes seeds for stubs")
+
+
+# ------------------------------------------------------------------------------------------ C16
+B("B35a", "C16-P1", [(SD, '            "nfvs": self.nfvs,\n', '')], "__getstate__ drops nfvs")
+B("B35b", "C16-P2", [(SD, "        self.symbolic = AsynchronousGraph(self.network)\n        self.petri_net = state", "        self.petri_net = state")],
+  "__setstate__ forgets self.symbolic")
+B("B35c", "C16-P1", [(SD, '        self.node_indices = state["node_indices"]', '        self.node_indices = dict(enumerate(state["dag"].nodes))')],
+  "node_indices rebuilt from the wrong source")
+B("B35d", "C16-P3", [(SD, 'self.network = cleanup_network(BooleanNetwork.from_aeon(state["network_rules"]))',
+                      'self.network = cleanup_network(BooleanNetwork.from_bnet(state["network_rules"]))')],
+  "rules exported as aeon, parsed as bnet")
+B("B35e", "C16-P3", [(IGU, '''    return BooleanNetwork.from_aeon(network.to_aeon()).infer_valid_graph()''', '''    return network''')],
+  "cleanup_network no longer normalises the variable order")
+B("B78", "C16-P4", [(SD, '''            data["percolated_nfvs"] = None
+            if data["attractor_seeds"]''', '''            data["percolated_nfvs"] = None
+            data["skipped"] = None
+            if data["attractor_seeds"]''')], "reclaim drops the skipped flag (no recompute path)")
+V("V79", "accessor recompute guard rewritten as `is None and compute` (equivalent after the raise)", edits=[(SD, '''        if network is None and not compute:
+            raise KeyError(f"Percolated network not computed for node {node_id}.")
+
+        if network is None:
+            network = percolate_network(''', '''        if network is None and not compute:
+            raise KeyError(f"Percolated network not computed for node {node_id}.")
+
+        if network is None and compute:
+            network = percolate_network(''')])
+B("B80", "C16-P5", [(SYM, "    bn_reduced = sd.node_percolated_network(node_id, compute=True)\n    graph_reduced = AsynchronousGraph(bn_reduced)\n    symbolic_ctx",
+                     "    bn_reduced = sd.node_data(node_id)[\"percolated_network\"]\n    graph_reduced = AsynchronousGraph(bn_reduced)\n    symbolic_ctx")],
+  "compute_attractors_symbolic reads the reclaimed network field directly")
